@@ -42,16 +42,72 @@ define i32 @f(i32 <D:p0>, i32 <D:p1>) {
 uselistorder_bb @f, <U:b3>, { 1, 0 }
 """
 
+# the exception-handling terminators and pads (their own translation functions in package asm): catchswitch (handlers, unwind label), catchpad /
+# cleanuppad (parent token, arguments), catchret (from, to), cleanupret (from, unwind label), landingpad, resume
+DEFS_EH = ["p0", "b0", "t0", "b1", "b2", "t1", "b3", "v0", "b4", "v1", "b5", "v2", "b6", "v3", "b7", "v4", "b8", "v5"]
+
+TEMPLATE_EH = """declare i32 @g()
+
+define i32 @h(i32 <D:p0>) personality i8* null {
+<L:b0>
+\t<D:t0> = invoke i32 @g()
+\t\tto label <U:b1> unwind label <U:b2>
+
+<L:b1>
+\tret i32 <U:t0>
+
+<L:b2>
+\t<D:t1> = catchswitch within none [label <U:b3>, label <U:b4>] unwind label <U:b5>
+
+<L:b3>
+\t<D:v0> = catchpad within <U:t1> [i32 <U:p0>]
+\tcatchret from <U:v0> to label <U:b1>
+
+<L:b4>
+\t<D:v1> = catchpad within <U:t1> []
+\tcatchret from <U:v1> to label <U:b6>
+
+<L:b5>
+\t<D:v2> = cleanuppad within none [i32 <U:p0>]
+\tcleanupret from <U:v2> unwind label <U:b7>
+
+<L:b6>
+\t<D:v3> = cleanuppad within <U:v1> []
+\tcleanupret from <U:v3> unwind to caller
+
+<L:b7>
+\t<D:v4> = landingpad { i8*, i32 }
+\t\tcleanup
+\tresume { i8*, i32 } <U:v4>
+
+<L:b8>
+\t<D:v5> = add i32 <U:t0>, <U:p0>
+\tbr label <U:b8>
+}
+"""
+
 import re
 
 TOK = re.compile(r"<([DUL]):(\w+)>")
-USES = [m.group(2) for m in TOK.finditer(TEMPLATE) if m.group(1) == "U"]      # use sites in textual order
 
 
-def numbering(names):
+class Tpl:
+    def __init__(self, tag, defs, template, skel):
+        self.tag, self.DEFS, self.TEMPLATE, self.skel = tag, defs, template, skel
+        self.USES = [m.group(2) for m in TOK.finditer(template) if m.group(1) == "U"]
+
+
+# the last use site of the main template is the block operand of the module-level `uselistorder_bb` (resolved by findBlock, like blockaddress targets)
+MAIN = Tpl("", DEFS, TEMPLATE, lambda ldefs, lrefs: "F|g|||;F|f|G=g G=f|%s|%s;U|#|G=f|||f:%s" % (" ".join(ldefs), " ".join(lrefs[:-1]), lrefs[-1]))
+EH = Tpl("eh:", DEFS_EH, TEMPLATE_EH, lambda ldefs, lrefs: "F|g|||;F|h|G=g|%s|%s" % (" ".join(ldefs), " ".join(lrefs)))
+
+FAM = ['"7"', '"07"', '"007"', '"+7"', '"0"', '"00"', "-0", '"0007"', '"+07"', '"+0"', '"000"', "-7", '"00007"', '"+007"', '"0000"', '"+00"', '"+0007"', '"+000"']
+
+
+def numbering(names, t=MAIN):
     """names: slot -> None (unnamed) | identifier text without the sigil (`x`, `"1"`); returns slot -> identifier text (IDs for the unnamed, LLVM order)"""
     out, n = {}, 0
-    for d in DEFS:
+    for d in t.DEFS:
         if names.get(d) is None:
             out[d] = str(n); n += 1
         else:
@@ -59,10 +115,10 @@ def numbering(names):
     return out
 
 
-def render(names, use_override=None, def_override=None):
+def render(names, use_override=None, def_override=None, t=MAIN):
     """use_override: {use-site index: identifier text}; def_override: {slot: identifier text} applied AFTER numbering (so that a duplicated definition does not
     shift the IDs). Returns (text, skeleton)."""
-    ids = numbering(names)
+    ids = numbering(names, t)
     dids = dict(ids)
     if def_override:
         dids.update(def_override)
@@ -76,30 +132,28 @@ def render(names, use_override=None, def_override=None):
         if k == "L":
             return dids[s] + ":"
         i = ui[0]; ui[0] += 1
-        t = use_override[i] if use_override and i in use_override else ids[s]
-        lrefs.append(t)
-        return "%" + t
-    text = TOK.sub(sub, TEMPLATE)
-    ldefs = [dids[d] for d in DEFS]
-    # the last use site is the block operand of the module-level `uselistorder_bb` (resolved by findBlock, like blockaddress targets)
-    sk = "F|g|||;F|f|G=g G=f|%s|%s;U|#|G=f|||f:%s" % (" ".join(ldefs), " ".join(lrefs[:-1]), lrefs[-1])
-    return text, sk
+        x = use_override[i] if use_override and i in use_override else ids[s]
+        lrefs.append(x)
+        return "%" + x
+    text = TOK.sub(sub, t.TEMPLATE)
+    ldefs = [dids[d] for d in t.DEFS]
+    return text, t.skel(ldefs, lrefs)
 
 
-def schemes(rng, n_random):
+def schemes(rng, n_random, t=MAIN):
     """naming schemes: (label, names)"""
+    DEFS = t.DEFS
     out = [("all-unnamed", {}), ("all-named", {d: d for d in DEFS}), ("all-quoted-numeric", {d: '"%d"' % i for i, d in enumerate(DEFS)})]
     # one slot k carries, as a quoted NAME, the number that is the ID of another (unnamed) slot j
     for k in DEFS:
         for j in DEFS:
             if k == j:
                 continue
-            ids = numbering({k: "x"})
+            ids = numbering({k: "x"}, t)
             out.append(("name-%s-is-id-of-%s" % (k, j), {k: '"%s"' % ids[j]}))
     # names that READ as the same number (ir.LocalIdent.Name() shows all of them as "7", resp. "0") but are different names
-    fam = ['"7"', '"07"', '"007"', '"+7"', '"0"', '"00"', "-0", '"0007"', '"+07"', '"+0"', '"000"', "-7", '"00007"', '"+007"', '"0000"']
-    for k in range(0, len(fam), 3):
-        rot = fam[k:] + fam[:k]
+    for k in range(0, len(FAM), 3):
+        rot = FAM[k:] + FAM[:k]
         out.append(("numeric-lookalikes-%d" % k, {d: rot[i] for i, d in enumerate(DEFS)}))
     for _ in range(n_random):
         names = {}
@@ -123,39 +177,50 @@ def schemes(rng, n_random):
 
 
 def cases(rng, n_random=20):
-    """yields (kind, expected, text, skeleton); expected in {'ok', 'error'}"""
-    for label, names in schemes(rng, n_random):
-        text, sk = render(names)
+    """yields (kind, expected, text, skeleton); expected in {'ok', 'error'}; the main template, then the exception-handling template"""
+    for t in (MAIN, EH):
+        for k, e, text, sk in cases_of(rng, n_random if t is MAIN else max(4, n_random // 4), t):
+            yield (t.tag + k, e, text, sk)
+
+
+def cases_of(rng, n_random, t):
+    DEFS, USES = t.DEFS, t.USES
+    R = lambda *a, **kw: render(*a, t=t, **kw)
+    for label, names in schemes(rng, n_random, t):
+        text, sk = R(names)
         yield ("valid:" + label, "ok", text, sk)
     # a use of ID n spelled as the NAME "n" (and the reverse) where that name (ID) is not defined
-    ids = numbering({})
+    ids = numbering({}, t)
     for i, s in enumerate(USES):
-        yield ("use-of-id-quoted:%d" % i, "error", *render({}, {i: '"%s"' % ids[s]}))
+        yield ("use-of-id-quoted:%d" % i, "error", *R({}, {i: '"%s"' % ids[s]}))
     qn = {d: '"%d"' % i for i, d in enumerate(DEFS)}
     for i, s in enumerate(USES):
-        yield ("use-of-quoted-as-id:%d" % i, "error", *render(qn, {i: qn[s].strip('"')}))
+        yield ("use-of-quoted-as-id:%d" % i, "error", *R(qn, {i: qn[s].strip('"')}))
+    # a use of a name nothing defines, at every use site (all-named and all-unnamed bodies)
+    for i, s in enumerate(USES):
+        yield ("use-of-undefined-name:%d" % i, "error", *R({d: d for d in DEFS}, {i: "undefined.x"}))
+        yield ("use-of-undefined-id:%d" % i, "error", *R({}, {i: "999"}))
     # mixed: slot k is NAMED "n" and nothing has ID n: a use spelled %n must not find it (and the reverse)
     for k in DEFS:
         names = {k: '"77"'}
         for i, s in enumerate(USES):
             if s == k:
-                yield ("use-of-quoted-as-id:%s:%d" % (k, i), "error", *render(names, {i: "77"}))
+                yield ("use-of-quoted-as-id:%s:%d" % (k, i), "error", *R(names, {i: "77"}))
     # a use spelled with ANOTHER spelling of the same number, which no definition carries (`%"000007"` where `%"7"`, `%"07"`, ... exist)
-    fam = ['"7"', '"07"', '"007"', '"+7"', '"0"', '"00"', "-0", '"0007"', '"+07"', '"+0"', '"000"', "-7", '"00007"', '"+007"', '"0000"']
-    lk = {d: fam[i] for i, d in enumerate(DEFS)}
+    lk = {d: FAM[i] for i, d in enumerate(DEFS)}
     for i, s_ in enumerate(USES):
         fresh = '"000007"' if "7" in lk[s_] else '"00000"'
-        yield ("use-of-lookalike-number:%d" % i, "error", *render(lk, {i: fresh}))
-        yield ("use-of-lookalike-number-id:%d" % i, "error", *render(lk, {i: "7" if "7" in lk[s_] else "0"}))
+        yield ("use-of-lookalike-number:%d" % i, "error", *R(lk, {i: fresh}))
+        yield ("use-of-lookalike-number-id:%d" % i, "error", *R(lk, {i: "7" if "7" in lk[s_] else "0"}))
     # duplicated definitions: every ordered pair of definition sites, named (b takes a's name) ...
     named = {d: d for d in DEFS}
     for a in DEFS:
         for b in DEFS:
             if a != b:
                 n2 = dict(named); n2[b] = a
-                yield ("duplicate-name:%s:%s" % (KIND[a[0]] + "-" + a, KIND[b[0]] + "-" + b), "error", *render(n2))
+                yield ("duplicate-name:%s:%s" % (KIND[a[0]] + "-" + a, KIND[b[0]] + "-" + b), "error", *R(n2))
     # ... and numbered (b is WRITTEN with a's ID; the IDs of the others stay as they are)
     for a in DEFS:
         for b in DEFS:
             if a != b:
-                yield ("duplicate-id:%s:%s" % (a, b), "error", *render({}, None, {b: ids[a]}))
+                yield ("duplicate-id:%s:%s" % (a, b), "error", *R({}, None, {b: ids[a]}))
